@@ -21,7 +21,8 @@ def handlers : List (String × Handler) := [
       | .null => Except.ok (solve n dmin ps terminal)
       | o => do pure (solveEval n dmin ps (← listOf (listOf natOf) o) terminal)
     let rows ← rows
-    pure <| jObj [("rows", jList (jRows n) rows), ("hitsTop", jBool (hitsTop n rows))])
+    let periodsOK := ps.all fun p => p.prob.all (fun q => decide (0 ≤ q)) && decide (0 ≤ p.gamma)
+    pure <| jObj [("rows", jList (jRows n) rows), ("hitsTop", jBool (hitsTop n rows)), ("periodsOK", jBool periodsOK)])
 ]
 
 end Driver.FH
